@@ -1,3 +1,4 @@
+import Clover.Generated.Facts
 import Clover.Proofs.BulkExact
 import Clover.Spec.Spec
 import Clover.Proofs.RefineBulkAny
@@ -122,3 +123,23 @@ theorem each_selected_document_rewritten_once (u : Upd) (sel : List Doc) (docs d
     ∀ d ∈ sel, Spec.lookup d.objectId docs' = u.apply d := applyAll_lookup_sel u sel docs docs' hs hnd h
 
 end CV.Props.C03
+
+-- SOURCE-TEXT-BEGIN (generated by tools/mk_source_theorems.py; do not edit by hand)
+namespace CV.Props.C03
+
+/-- (facts, regenerated from the source on every run) **The source text the model transcribes is the text of the
+    current source**: the bodies (comments and layout removed) of the 7 functions the model behind C03 was written from and
+    validated against.  Any edit of one of them breaks this theorem at build time; the check then searches with the
+    property's own oracles for a failing input, and reports `no-failing-input-found` if it finds none: the model then
+    has to be re-validated against the new text (and this block regenerated). -/
+theorem source_decision_logic : CV.Facts.logicC03 = [
+  "clover.DB.Delete: { q, err := normalizeCriteria(q) if err != nil { return err } tx, err := db.store.Begin(true) if err != nil { return err } defer tx.Rollback() if err := db.replaceDocs(tx, q, func(_ *d.Document) *d.Document { return nil }); err != nil { return err } return tx.Commit() }", 
+  "clover.DB.DropCollection: { tx, err := db.store.Begin(true) if err != nil { return err } defer tx.Rollback() if err := db.deleteAll(tx, name); err != nil { return err } if err := tx.Delete([]byte(getCollectionKey(name))); err != nil { return err } return tx.Commit() }", 
+  "clover.DB.Update: { q, err := normalizeCriteria(q) if err != nil { return err } return db.UpdateFunc(q, func(doc *d.Document) *d.Document { newDoc := doc.Copy() newDoc.SetAll(updateMap) return newDoc }) }", 
+  "clover.DB.UpdateFunc: { txn, err := db.store.Begin(true) if err != nil { return err } defer txn.Rollback() q, err = normalizeCriteria(q) if err != nil { return err } if err := db.replaceDocs(txn, q, updateFunc); err != nil { return err } return txn.Commit() }", 
+  "clover.DB.deleteAll: { return db.replaceDocs(tx, query.NewQuery(collName), func(_ *d.Document) *d.Document { return nil }) }", 
+  "clover.DB.iterateDocs: { meta, err := db.getCollectionMeta(q.Collection(), tx) if err != nil { return err } nd := buildQueryPlan(q, db.getIndexes(tx, q.Collection(), meta), &consumerNode{consumer: consumer}) return execPlan(nd, tx) }", 
+  "clover.DB.replaceDocs: { meta, err := db.getCollectionMeta(q.Collection(), tx) if err != nil { return err } indexes := db.getIndexes(tx, q.Collection(), meta) docs := make([]*d.Document, 0) err = db.iterateDocs(tx, q, func(doc *d.Document) error { docs = append(docs, doc) return nil }) if err != nil { return err } deletedDocs := 0 for _, doc := range docs { docKey := []byte(getDocumentKey(q.Collection(), doc.ObjectId())) newDoc := updater(doc.Copy()) if newDoc != nil && newDoc.ObjectId() != doc.ObjectId() { return errIdChanged } if err := db.updateIndexesOnDocUpdate(tx, indexes, doc, newDoc); err != nil { return err } if newDoc == nil { deletedDocs++ if err := tx.Delete(docKey); err != nil { return err } continue } if err := saveDocument(newDoc, docKey, tx); err != nil { return err } } if deletedDocs > 0 { meta.Size -= deletedDocs if err := db.saveCollectionMetadata(q.Collection(), meta, tx); err != nil { return err } } return nil }"] := by rfl
+
+end CV.Props.C03
+-- SOURCE-TEXT-END
